@@ -505,6 +505,15 @@ impl<'a> History<'a> {
 			_ => f.s1.clone().unwrap(),
 		};
 		if f.cancelled_payer {
+			// the reserve step delivered once more after the wallet cancelled the transaction: still a repeat of
+			// the same step with the same slate - refused, or without any further entry, output or reservation
+			if f.locked && self.cfg.duplicates {
+				self.set_acct(f.payer, &f.payer_acct);
+				let before = self.counts(f.payer);
+				let r = self.w.wallets[f.payer].lock_outputs(&slate);
+				self.judge_repeat("tx_lock_outputs(after-cancel)", f.payer, before, r.is_ok(), true);
+				self.ev("tx_lock_outputs", json!({"slate": f.id.to_string(), "wallet": f.payer, "repeat": true, "after_cancel": true}), &format!("{:?}", r.as_ref().map_err(err_kind)));
+			}
 			return;
 		}
 		let repeat = f.locked;
@@ -529,7 +538,15 @@ impl<'a> History<'a> {
 
 	fn do_receive(&mut self, fi: usize, rng: &mut Rng) {
 		let f = self.flights[fi].clone();
-		if f.kind == Kind::Invoice || f.cancelled_payee {
+		if f.kind == Kind::Invoice {
+			return;
+		}
+		if f.cancelled_payee {
+			// The same slate delivered again after the recipient cancelled its entry. The wallet accepts this
+			// on purpose (its duplicate check looks for a live TxReceived entry only; the cancelled entry's
+			// output is gone, so there is still one pending output per slate): a new attempt, not a repeat of
+			// a step of a live transaction. Don't-care for the idempotence clause; not exercised here because
+			// it would revive a flight the model considers finished.
 			return;
 		}
 		let repeat = f.received;
